@@ -147,6 +147,10 @@ func (s *Service) handleConnection(ctx context.Context, conn net.Conn, wg *sync.
 
 func (s *Service) teardown() {
 	s.mutex.Lock()
+	if s.listener != nil {
+		// Release the endpoint on every way out of the serving call, not only after Shutdown.
+		s.listener.Close()
+	}
 	s.listener = nil
 	s.running = false
 	s.protocol = ""
